@@ -52,11 +52,11 @@ func VerifC08_Placement() {
 	vNativeReset()
 	mode := vInt("mode", 0, 2)
 	um := vInt("um", 0, 2)
-	place := vInt("place", 0, 12)
+	place := vInt("place", 0, 13)
 	form := vInt("form", 0, 3)
 	u, name := unknownToken(form)
 	v := positional("v")
-	q := positional("q", "cmd", "wrap", "wrap2")
+	q := positional("q", "cmd", "wrap", "wrap2", "csub")
 
 	opt := New()
 	setMode(opt, mode)
@@ -73,6 +73,8 @@ func VerifC08_Placement() {
 	cmd := opt.NewCommand("cmd", "")
 	cmdopt := cmd.Bool("cmdopt", false)
 	cmd.SetCommandFn(func(c context.Context, o *GetOpt, a []string) error { ran += "cmd;"; return nil })
+	csub := cmd.NewCommand("csub", "")
+	csub.SetCommandFn(func(c context.Context, o *GetOpt, a []string) error { ran += "csub;"; return nil })
 	wrap := opt.NewCommand("wrap", "")
 	wrap.UnsetOptions().SetUnknownMode(Pass)
 	wrap.SetCommandFn(func(c context.Context, o *GetOpt, a []string) error { ran += "wrap;"; return nil })
@@ -117,6 +119,9 @@ func VerifC08_Placement() {
 		vAssume(mode == 1 && form == 2)
 		u, name = "-yfz", "y"
 		args, want = []string{u}, []string{u}
+	case 13:
+		// given at a command, in front of a sub command token: travels on with it
+		args, want = []string{"cmd", u, "--cmdopt", "csub", q}, []string{u, q}
 	case 10:
 		// a wrapper without a mode of its own: the inherited mode applies inside it
 		args, want = []string{"wrap2", u, q}, []string{u, q}
@@ -167,6 +172,8 @@ func VerifC08_Placement() {
 			vAssert("around/flag", *flag)
 			vAssert("around/str", *str == v)
 		case 2:
+			vAssert("around/cmdopt", *cmdopt)
+		case 13:
 			vAssert("around/cmdopt", *cmdopt)
 		case 3:
 			vAssert("around/flag", *flag)
